@@ -127,8 +127,10 @@ class GenericNonMultiplicativeRegistry(
         # If the unit is not in the registry might be because it is not
         # registered with its prefixed version.
         # TODO: Might be better to register them.
+        # (several readings, e.g. 'kilorads': the first one, as in get_name)
         names = self.parse_unit_name(unit_name)
-        assert len(names) == 1
+        if not names:
+            raise UndefinedUnitError(unit_name)
         _, base_name, _ = names[0]
         try:
             return self._units[base_name].is_multiplicative
